@@ -914,6 +914,22 @@ fn check_entry(tera: &Tera, entry: &Entry, ctx: &Context, stats: &mut Stats, rng
             return (refr.clone_ref(), Some(Failure { what: "String variant returned other bytes than the writer variant wrote".into(), policy: None }));
         }
     }
+    // `Tera::one_off` = `render_str` on a default instance: same bytes when the source needs
+    // nothing registered (no include, no component call)
+    if let Entry::Str { source, autoescape } = entry {
+        if !source.contains("include") && !source.contains("{{<") && !source.contains("{% <") {
+            let o = catch(AssertUnwindSafe(|| Tera::one_off(source, ctx, *autoescape)));
+            stats.oracle_checks += 1;
+            stats.count("one_off_compared");
+            let same_text = match (&o, &s) {
+                (Ok(Ok(a)), Ok(Ok(b))) => a == b,
+                _ => true,
+            };
+            if class_of(&o) != s_class || !same_text {
+                return (refr.clone_ref(), Some(Failure { what: format!("Tera::one_off ended `{}` / other bytes than render_str (`{s_class}`)", class_of(&o)), policy: None }));
+            }
+        }
+    }
     // Vec<u8> as the writer (what the documentation shows)
     {
         let mut v: Vec<u8> = Vec::new();
@@ -1243,7 +1259,7 @@ fn main() {
     }
 
     // ---- generated programs
-    let n_cases = env.budget(1500, 40000);
+    let n_cases = env.budget(1500, 150000);
     let seeds: Vec<u64> = (0..n_cases).map(|_| rng.next_u64()).collect();
     let chunk = seeds.len().div_ceil(threads);
     struct Out {
@@ -1300,9 +1316,9 @@ fn main() {
                                 break;
                             }
                         }
-                        // the thorough tier sends every fourth case to the model (memory), with all
+                        // the thorough tier sends every tenth case to the model (memory), with all
                         // its failure points
-                        if case_ok && (quick || idx % 4 == 0) {
+                        if case_ok && (quick || idx % 10 == 0) {
                             model_requests(&gc.case, &tera, &gc.entries, idx, caps, &mut r, &mut o.reqs);
                             o.cases.push((idx, ops, autoescape));
                         }
